@@ -2,7 +2,7 @@
 (* Design-level exhaustive check of the population algorithm against PrunedClosure over the       *)
 (* small-scope universe of SchedUniverse: NP = 3 procedures, every module assignment up to        *)
 (* symmetry, call relations incl. cycles and self recursion, import styles, the configuration     *)
-(* lattice (18 pruning options x 4 seed options).                                                 *)
+(* lattice (21 pruning options x 4 seed options).                                                 *)
 (*   Tier "quick":    relations over the forward pairs + self recursion (16 per assignment),       *)
 (*                    each pruning option with one rotating (style, var import, seed) combination *)
 (*   Tier "thorough": all 128 relations, each pruning option with two rotating combinations       *)
